@@ -407,7 +407,7 @@ def main():
 
 
 def keep_logs(shards, pid="misc"):
-    d = os.path.join(WORK, "lastfail", pid.lower())
+    d = os.path.join(WORK, "lastfail", pid.lower() + ("-alt" if os.environ.get("VERIF_REPO") else ""))
     shutil.rmtree(d, ignore_errors=True)
     os.makedirs(d, exist_ok=True)
     for s in shards:
